@@ -27,7 +27,9 @@ GEN = os.path.join(LEAN, 'Xrfmv', 'Gen')
 def driver_bin(prop):
     return os.path.join(LEAN, '.lake', 'build', 'bin', f'driver_{prop.lower()}')
 
-EVID = os.path.join(VERIF, 'evidence')
+# evidence of runs against a seeded change (VERIF_REPO set by tools/try_patch.sh / seed_eval.sh) goes elsewhere, so that the
+# committed evidence is only ever written by runs against /repo itself
+EVID = os.environ.get('VERIF_EVIDENCE_DIR') or os.path.join(VERIF, 'evidence')
 REPLAYS = os.path.join(EVID, 'replays')
 KNOWN = os.path.join(VERIF, 'known_findings.json')
 ALLOWED_AXIOMS = {'propext', 'Classical.choice', 'Quot.sound'}
@@ -375,7 +377,7 @@ class Run:
         path = os.path.join(REPLAYS, f'{self.prop}-{h}.json')
         with open(path, 'w') as f:
             json.dump(payload, f, indent=1, default=str)
-        return os.path.relpath(path, VERIF)
+        return os.path.relpath(path, VERIF) if path.startswith(VERIF + os.sep) else path
 
     def finish(self, replaying=False):
         known = load_known()
